@@ -9,10 +9,15 @@
                 (the protocol reserves all-zero for "final"; a real HMAC hits it with probability 2⁻²⁵⁶);
      * `NoEarlyMatch` — no relaying hop's `um` HMAC verifies by accident on the packet it relayed;
      * collisions: accepting a modified packet is shown to EXHIBIT a MAC collision.
+   Failure relaying with attribution data (section "failures with attribution data"): the procedures
+   build_failure_packet / process_failure_packet (with its LN_MAX_MSG_LEN guard) / crypt_failure_packet /
+   update_fail_htlc_wire_len are TRANSLATED from the Rust source on every run (Generated/OnionFail.lean); the
+   theorems state the exact size bound (a message of exactly LN_MAX_MSG_LEN keeps its attribution data),
+   length preservation, and that the sender reads the failing hop, code, data AND every hop's hold time.
    Not covered here: ECDH / ephemeral-key blinding (shared secrets are inputs), payload contents
-   (opaque, length-framed), attribution data / hold times (executable model in Model/Onion.lean,
-   validated by the correspondence only). -/
+   (opaque, length-framed), the fulfil direction of attribution data (executable model, correspondence only). -/
 import LdkModel.Proofs.Onion
+import LdkModel.Proofs.OnionAttr
 namespace Ldk.C14
 open Ldk Ldk.Onion
 
@@ -267,6 +272,187 @@ theorem failure_attribution_sound (C : OnionCrypto) (keys : List FailKeys) (pkt 
     rcases decodeGo_spec C keys 0 pkt with ⟨h1, _⟩ | ⟨j, hj, h1, h2, h3⟩
     · exact absurd h1 hne
     · exact ⟨j, hj, h1, h2, by simpa using h3⟩
+
+/-! ## failures with attribution data (hold times), relayed by `process_failure_packet` -/
+
+/-- **Wire length.** `update_fail_htlc_wire_len` (translated from the Rust source together with the message
+    layout of msgs.rs / ser.rs / wire.rs) is: 2 bytes message type, 32 + 8 + 2 bytes fixed fields and length
+    prefix, the reason bytes, and — when attribution data is present — a TLV of 1 + 3 + 920 bytes. -/
+theorem update_fail_htlc_wire_len_exact (p : FailPkt) :
+    updateFailHtlcWireLen p = p.data.length + 44 + (if p.attr.isSome then 924 else 0) := by
+  rw [updateFailHtlcWireLen_eq]; split <;> omega
+
+/-- **The size guard of a relaying hop, exactly.** For every relaying hop (any keys, any hold time), and every
+    failure it receives from downstream (any reason length, with or without attribution data):
+    the reason keeps its length; the relayed failure carries attribution data IF AND ONLY IF the resulting
+    `update_fail_htlc` (with attribution data) fits in `LN_MAX_MSG_LEN` — a message of EXACTLY `LN_MAX_MSG_LEN`
+    bytes is legal and keeps it; and what is sent fits whenever what was received (without attribution data) did. -/
+theorem relay_keeps_attribution_iff_fits (C : OnionCrypto) (k : FailKeysX) (p : FailPkt) (hold : Nat) :
+    let r := relayFailurePacket C k none p (some hold)
+    r.data.length = p.data.length ∧
+    (r.attr.isSome ↔ updateFailHtlcWireLen ⟨r.data, some Attr.new⟩ ≤ LN_MAX_MSG_LEN) ∧
+    (r.attr.isSome ↔ p.data.length + 968 ≤ LN_MAX_MSG_LEN) ∧
+    (updateFailHtlcWireLen r ≤ LN_MAX_MSG_LEN ↔ p.data.length + 44 ≤ LN_MAX_MSG_LEN) := by
+  intro r
+  have hr : r = ⟨wrapFailure C k.base p.data,
+      if attrFits p.data.length then some ((relayAttr C k p hold).crypt C k.ammagext) else none⟩ :=
+    relayFailurePacket_eq C k p hold
+  have hM : LN_MAX_MSG_LEN = 65535 := rfl
+  have hfit := attrFits_iff p.data.length
+  rw [hr]
+  by_cases h : attrFits p.data.length
+  · have h' := hfit.mp h
+    simp only [if_pos h, update_fail_htlc_wire_len_exact, Option.isSome_some, wrapFailure_length, if_true, true_iff]
+    exact ⟨trivial, by omega, by omega, fun _ => by omega, fun _ => by omega⟩
+  · have h' : ¬ p.data.length + 968 ≤ 65535 := fun x => h (hfit.mpr x)
+    simp only [if_neg h, update_fail_htlc_wire_len_exact, Option.isSome_some, Option.isSome_none, wrapFailure_length,
+      if_true, Bool.false_eq_true, if_false, false_iff, true_and]
+    exact ⟨by omega, by omega, trivial⟩
+
+/-- the boundary case spelled out: a relayed `update_fail_htlc` of exactly `LN_MAX_MSG_LEN` bytes keeps its
+    attribution data; one byte more and it is stripped (and the message then has 924 bytes less) -/
+theorem relay_boundary (C : OnionCrypto) (k : FailKeysX) (p : FailPkt) (hold : Nat) :
+    (p.data.length + 968 = LN_MAX_MSG_LEN →
+      (relayFailurePacket C k none p (some hold)).attr.isSome ∧
+      updateFailHtlcWireLen (relayFailurePacket C k none p (some hold)) = LN_MAX_MSG_LEN) ∧
+    (p.data.length + 968 = LN_MAX_MSG_LEN + 1 →
+      (relayFailurePacket C k none p (some hold)).attr = none ∧
+      updateFailHtlcWireLen (relayFailurePacket C k none p (some hold)) = LN_MAX_MSG_LEN + 1 - 924) := by
+  have hM : LN_MAX_MSG_LEN = 65535 := rfl
+  have hfit := attrFits_iff p.data.length
+  rw [relayFailurePacket_eq, update_fail_htlc_wire_len_exact]
+  constructor <;> intro h
+  · rw [if_pos (hfit.mpr (by omega))]
+    simp only [Option.isSome_some, wrapFailure_length, if_true, true_and]; omega
+  · rw [if_neg (fun x => absurd (hfit.mp x) (by omega))]
+    simp only [Option.isSome_none, wrapFailure_length, Bool.false_eq_true, if_false, true_and]; omega
+
+example : attrFits 64567 ∧ ¬ attrFits 64568 := by
+  constructor
+  · exact (attrFits_iff _).mpr (by decide)
+  · exact fun h => absurd ((attrFits_iff _).mp h) (by decide)
+
+/-- **Length preservation and attribution data through any number of relays.** For every chain of relaying
+    hops (any number, any keys and hold times) and every failure `P` entering it: the reason bytes keep their
+    length, and — with at least one relay — the sender receives attribution data iff the message with
+    attribution data fits (the same bound at every hop, because the length never changes). -/
+theorem relay_chain_length_and_attribution (C : OnionCrypto) (pre : List RelayHop) (P : FailPkt) :
+    (relayChainX C pre P).data.length = P.data.length ∧
+    (pre ≠ [] → ((relayChainX C pre P).attr.isSome ↔ P.data.length + 968 ≤ LN_MAX_MSG_LEN)) := by
+  refine ⟨relayChainX_length C pre P, fun hne => ?_⟩
+  cases pre with
+  | nil => exact absurd rfl hne
+  | cons kh t =>
+    rw [relayChainX_cons]
+    have := (relay_keeps_attribution_iff_fits C kh.1 (relayChainX C t P) kh.2).2.2.1
+    rwa [relayChainX_length] at this
+
+/-- the failing hop's own packet: its length, and when it fits on the wire with its attribution data -/
+theorem built_failure_length_and_fit (C : OnionCrypto) (k : FailKeysX) (code : Nat) (data : Bytes) (hold : Nat) :
+    (buildFailurePacket C k code data hold).data.length =
+      32 + 2 + (2 + data.length) + 2 + (DEFAULT_MIN_FAILURE_PACKET_LEN - (2 + data.length)) ∧
+    (buildFailurePacket C k code data hold).attr.isSome ∧
+    (updateFailHtlcWireLen (buildFailurePacket C k code data hold) ≤ LN_MAX_MSG_LEN ↔ data.length ≤ 64529) := by
+  have hM : LN_MAX_MSG_LEN = 65535 := rfl
+  have hD : DEFAULT_MIN_FAILURE_PACKET_LEN = 256 := rfl
+  rw [update_fail_htlc_wire_len_exact, buildFailurePacket_eq]
+  simp only [buildFailure_length, Option.isSome_some, if_true, true_and]
+  omega
+
+/-- **failure_roundtrip_hold_times.** For every path (relaying hops `pre` before the failing hop — each with its
+    keys and the hold time it reports —, the failing hop `fk` with hold time `hf`, hops `post` after it; so every
+    path length and failing position), every failure code and failure data such that the failing hop's
+    `update_fail_htlc` fits in `LN_MAX_MSG_LEN` (data of up to 64529 bytes — INCLUDING the length that makes the
+    message exactly `LN_MAX_MSG_LEN` bytes): the packet built by `build_failure_packet` and relayed by
+    `process_failure_packet` + `crypt_failure_packet` at each of the hops before it is decoded by the sender as
+    coming from hop `|pre|` with exactly the original code and data, AND the sender reads exactly the hold times of
+    all hops on the way, first hop first (of the first `MAX_HOPS` hops: the attribution data has room for no more).
+    Hypotheses: u32 hold times; `NoEarlyMatch` (no relaying hop's legacy HMAC verifies by accident on what it
+    relayed — as in `failure_roundtrip`).  The 4-byte truncated attribution HMACs need NO hypothesis here: honest
+    data always verifies. -/
+theorem failure_roundtrip_hold_times (C : OnionCrypto) (pre : List RelayHop) (fk : FailKeysX) (hf : Nat)
+    (post : List FailKeysX) (code : Nat) (data : Bytes) (hc : code < 65536)
+    (hfit : updateFailHtlcWireLen (buildFailurePacket C fk code data hf) ≤ LN_MAX_MSG_LEN)
+    (hhf : hf < 4294967296) (hh : ∀ kh ∈ pre, kh.2 < 4294967296)
+    (hno : NoEarlyMatch C (pre.map (fun kh => kh.1.base)) (buildFailure C fk.base code data)) :
+    let P := relayChainX C pre (buildFailurePacket C fk code data hf)
+    P.attr.isSome ∧
+    decodeFailureX C (pre.map (fun kh => kh.1) ++ fk :: post) P.data P.attr =
+      (.attributed pre.length code data, (pre.map (fun kh => kh.2) ++ [hf]).take MAX_HOPS) := by
+  intro P
+  have hM : LN_MAX_MSG_LEN = 65535 := rfl
+  have hD : DEFAULT_MIN_FAILURE_PACKET_LEN = 256 := rfl
+  have hdl : data.length ≤ 64529 := (built_failure_length_and_fit C fk code data hf).2.2.mp hfit
+  have hbd : (buildFailurePacket C fk code data hf).data = buildFailure C fk.base code data := by
+    rw [buildFailurePacket_eq]
+  have hfits : attrFits (buildFailurePacket C fk code data hf).data.length := by
+    rw [attrFits_iff, hbd, buildFailure_length]; omega
+  obtain ⟨aP, haP, _⟩ := relayChainX_attr C (buildFailurePacket C fk code data hf) _
+    (by rw [buildFailurePacket_eq]) (Attr.crypt_wf C _ (Attr.update_wf C Attr.new_wf _ _ _)) hfits pre
+  refine ⟨by show (relayChainX C pre _).attr.isSome = true; rw [haP]; rfl, ?_⟩
+  show decodeFailureX C _ (relayChainX C pre _).data (relayChainX C pre _).attr = _
+  unfold decodeFailureX
+  rw [if_neg (by rw [relayChainX_length, hbd, buildFailure_length]; omega), haP]
+  rw [decodeGoX_chain C fk post code data hf _ (Nat.min_le_right _ _) hhf hfits pre 0 [] aP aP hh
+    (by rw [hbd]; exact hno) haP (fun _ => AgreeR.refl _ _)]
+  rw [parseFailure_unencrypted C fk.base _ code _ data hc (by omega) (by omega)]
+  simp only [Nat.zero_add, List.nil_append, Nat.sub_zero]
+  rw [take_min_of_length_le _ _ _ (by simp)]
+
+/-- **…and when the message does not fit.** If the failing hop's packet with attribution data exceeds
+    `LN_MAX_MSG_LEN` (failure data of 64530 … 65533 bytes) and at least one hop relays it, the sender receives
+    no attribution data, still attributes the failure to the right hop with its code and data, and reports no
+    hold times. -/
+theorem failure_roundtrip_stripped (C : OnionCrypto) (pre : List RelayHop) (hne : pre ≠ []) (fk : FailKeysX) (hf : Nat)
+    (post : List FailKeysX) (code : Nat) (data : Bytes) (hc : code < 65536) (hd : data.length ≤ 65533)
+    (hbig : ¬ updateFailHtlcWireLen (buildFailurePacket C fk code data hf) ≤ LN_MAX_MSG_LEN)
+    (hno : NoEarlyMatch C (pre.map (fun kh => kh.1.base)) (buildFailure C fk.base code data)) :
+    let P := relayChainX C pre (buildFailurePacket C fk code data hf)
+    P.attr = none ∧
+    decodeFailureX C (pre.map (fun kh => kh.1) ++ fk :: post) P.data P.attr = (.attributed pre.length code data, []) := by
+  intro P
+  have hM : LN_MAX_MSG_LEN = 65535 := rfl
+  have hD : DEFAULT_MIN_FAILURE_PACKET_LEN = 256 := rfl
+  have hdl : ¬ data.length ≤ 64529 := fun h => hbig ((built_failure_length_and_fit C fk code data hf).2.2.mpr h)
+  have hbd : (buildFailurePacket C fk code data hf).data = buildFailure C fk.base code data := by
+    rw [buildFailurePacket_eq]
+  have hnone : P.attr = none := by
+    have := (relay_chain_length_and_attribution C pre (buildFailurePacket C fk code data hf)).2 hne
+    rw [hbd, buildFailure_length] at this
+    cases h : P.attr with
+    | none => rfl
+    | some a =>
+      have h2 : (relayChainX C pre (buildFailurePacket C fk code data hf)).attr.isSome = true := by
+        show P.attr.isSome = true; rw [h]; rfl
+      have := this.mp h2
+      omega
+  refine ⟨hnone, ?_⟩
+  rw [hnone, decodeFailureX_none]
+  show (decodeFailure C _ (relayChainX C pre _).data, _) = _
+  rw [relayChainX_data, hbd]
+  have := failure_roundtrip C (pre.map (fun kh => kh.1.base)) fk.base (post.map FailKeysX.base) code data hc hd hno
+  simp only [List.map_append, List.map_cons, List.map_map, List.length_map] at this ⊢
+  rw [← this]
+  rfl
+
+
+-- non-vacuity: a failure of the third hop relayed by two hops (toy stream / MAC): all hypotheses hold, the sender
+-- reads hop 2, the code, the data and the three hold times, first hop first
+example :
+    decodeFailureX toy ([⟨[1], [2], [9]⟩, ⟨[3, 3], [4], [8, 8]⟩] ++ (⟨[5], [6, 6], [7]⟩ : FailKeysX) :: [])
+      (relayChainX toy [(⟨[1], [2], [9]⟩, 5), (⟨[3, 3], [4], [8, 8]⟩, 7)] (buildFailurePacket toy ⟨[5], [6, 6], [7]⟩ 0x400f [1, 2, 3] 3)).data
+      (relayChainX toy [(⟨[1], [2], [9]⟩, 5), (⟨[3, 3], [4], [8, 8]⟩, 7)] (buildFailurePacket toy ⟨[5], [6, 6], [7]⟩ 0x400f [1, 2, 3] 3)).attr
+    = (.attributed 2 0x400f [1, 2, 3], [5, 7, 3]) :=
+  (failure_roundtrip_hold_times toy [(⟨[1], [2], [9]⟩, 5), (⟨[3, 3], [4], [8, 8]⟩, 7)] ⟨[5], [6, 6], [7]⟩ 3 [] 0x400f [1, 2, 3]
+    (by decide) ((built_failure_length_and_fit toy _ _ _ _).2.2.mpr (by decide)) (by decide)
+    (by intro kh hkh; simp at hkh; rcases hkh with rfl | rfl <;> decide)
+    (by refine ⟨?_, ?_, trivial⟩ <;> (set_option maxRecDepth 100000 in decide))).2
+
+-- the boundary: 64567 reason bytes + attribution data = exactly LN_MAX_MSG_LEN: kept; 64568: stripped
+example (k : FailKeysX) : (relayFailurePacket toy k none ⟨zeros 64567, none⟩ (some 7)).attr.isSome = true :=
+  (relay_keeps_attribution_iff_fits toy k ⟨zeros 64567, none⟩ 7).2.2.1.mpr (by simp [LN_MAX_MSG_LEN])
+example (k : FailKeysX) : (relayFailurePacket toy k none ⟨zeros 64568, none⟩ (some 7)).attr = none :=
+  ((relay_boundary toy k ⟨zeros 64568, none⟩ 7).2 (by simp [LN_MAX_MSG_LEN])).1
 
 /-! ## non-vacuity (a toy stream/MAC, evaluated by the kernel) -/
 
